@@ -307,6 +307,8 @@ class ExprMixin:
         pl, lt, lty = self.expr(node.left, env)
         # bytes concatenation / list repetition are not supported here
         pr, rt, rty = self.expr(node.right, env)
+        if lty == T.TBYTES and rty == T.TBYTES and isinstance(op, ast.Add):
+            return pl + pr, f'({paren(lt)} ++ {paren(rt)})', T.TBYTES
         p1, lz = self.as_Z(lt, lty, node)
         p2, rz = self.as_Z(rt, rty, node)
         pre = pl + pr + p1 + p2
@@ -644,7 +646,7 @@ class ExprMixin:
                     raise self.uns('bytearray subscript', node)
                 p1, a, _ = self.expr(sl.lower, env)
                 p2, b, _ = self.expr(sl.upper, env)
-                p3, t = self.bind_comp(Prim(f'reads (fun m => py_slice m {paren(a)} {paren(b)})', 2), 'bs')
+                p3, t = self.bind_comp(Prim(f'reads (fun m => py_slice m {paren(a)} {paren(b)})', 2, ro=True), 'bs')
                 return pre + p1 + p2 + p3, t, T.TBYTES
             if base[0] == 'obj' and base[1] == 'MemoryControllerHub':
                 fi = self.prog.cls('MemoryControllerHub').methods['__getitem__']
@@ -667,6 +669,14 @@ class ExprMixin:
                 pass
         # generic: tuple projection with constant index
         pv, tv, tyv = self.expr(node.value, env)
+        if tyv == T.TBYTES and isinstance(node.slice, ast.Slice) and node.slice.step is None:
+            pa, a = ([], '0')
+            if node.slice.lower is not None:
+                pa, a, _ = self.expr(node.slice.lower, env)
+            if node.slice.upper is None:
+                return pv + pa, f'(py_slice {paren(tv)} {paren(a)} (Z.of_nat (length {paren(tv)})))', T.TBYTES
+            pb, b, _ = self.expr(node.slice.upper, env)
+            return pv + pa + pb, f'(py_slice {paren(tv)} {paren(a)} {paren(b)})', T.TBYTES
         if tyv[0] == 'tup' and isinstance(node.slice, ast.Constant) and isinstance(node.slice.value, int):
             i = node.slice.value
             n = len(tyv[1])
@@ -847,6 +857,21 @@ class ExprMixin:
             if n == 'abs' and len(node.args) == 1:
                 p, t, ty = self.expr(node.args[0], env)
                 return p, f'(Z.abs {paren(t)})', T.TZ
+            if n == 'bytes' and len(node.args) == 1:
+                p, t, ty = self.expr(node.args[0], env)
+                p2, z = self.as_Z(t, ty, node)
+                p3, r = self.bind_comp(Prim(f'ebytes {paren(z)}', 1), 'bs')
+                return p + p2 + p3, r, T.TBYTES
+            if n in ('min', 'max') and len(node.args) == 2:
+                p1, a, ta = self.expr(node.args[0], env)
+                p2, b, tb = self.expr(node.args[1], env)
+                if ta != T.TZ or tb != T.TZ:
+                    raise self.uns(f'{n} of non-integers', node)
+                return p1 + p2, f'(Z.{n} {paren(a)} {paren(b)})', T.TZ
+            if n == 'len' and len(node.args) == 1 and T.unparse(node.args[0]) == 'self.memory_array' \
+                    and self.ctx.kind == 'ram':
+                p, t = self.bind_comp(Prim('reads (fun m => Z.of_nat (length m))', 2, ro=True), 'n')
+                return p, t, T.TZ
             if n == 'len' and len(node.args) == 1:
                 p, t, ty = self.expr(node.args[0], env)
                 if ty != T.TBYTES:
